@@ -473,6 +473,7 @@ static bool committed(uintptr_t a, size_t n)
 {
   for (int i = 0; i < 2; i++) {
     uintptr_t b = slot_base(i);
+    if (a + n < a) continue;   // the range wraps the address space
     if (a >= b && a + n <= b + Cfg::committed - 2 * 4096) return true;
     if (a >= b + Cfg::region_size - 4096 && a + n <= b + Cfg::region_size) return true;
   }
